@@ -888,7 +888,9 @@ def check_separated_case(xml, q, qd, act, name, hist):
   if not d0 > SEP_MARGIN:
     return None, dict(skipped='touching', min_dist=d0)
   a1, b1 = pa.step(a0, act), pb.step(b0, act)
-  d1 = float(pa.min_dist(a1.x))
+  # "touches nothing" is judged on the motion WITHOUT collision handling (twin b): if that motion stays separated, collision
+  # handling has no business changing it — a collidable twin that was pulled onto a surface must not excuse itself
+  d1 = float(pa.min_dist(b1.x))
   if not d1 > SEP_MARGIN:
     return None, dict(skipped='touching-after', min_dist=d1)
   ua, ub = unit_dev(a1), unit_dev(b1)
